@@ -479,6 +479,45 @@ func (s *script) setPtr() {
 			return
 		}
 	}
+	if s.rng.Chance(1, 6) {
+		// pointer-list view of a struct list (the List(Text) -> List(struct) upgrade
+		// seen from the old reader's side): Set writes the first pointer of element i
+		var c []*obj
+		for _, o := range s.objs {
+			if o.isList && o.m.ET == ref.ETComposite && o.m.N > 0 && o.m.ElemPW > 0 {
+				c = append(c, o)
+			}
+		}
+		if len(c) > 0 {
+			o := c[s.rng.Intn(len(c))]
+			i := s.rng.Intn(o.m.N)
+			if s.rng.Chance(1, 3) {
+				b := s.rng.Bytes(s.rng.PickInt(1, 3, 8, 9))
+				for k := range b {
+					if b[k] == 0 {
+						b[k] = 'y'
+					}
+				}
+				if err := (capnp.TextList{List: o.ls}).Set(i, string(b)); err != nil {
+					s.err = fmt.Errorf("TextList.Set over struct list: %v", err)
+					return
+				}
+				s.overwrite(o.m.Elems[i].Ptrs[0])
+				o.m.Elems[i].Ptrs[0] = ref.NewText(string(b))
+				s.logf("o%d[%d].p0=text(%d) via TextList", o.id, i, len(b))
+				return
+			}
+			p, m, name := s.pickTarget(o.m)
+			if err := (capnp.PointerList{List: o.ls}).Set(i, p); err != nil {
+				s.err = fmt.Errorf("PointerList.Set over struct list: %v", err)
+				return
+			}
+			s.overwrite(o.m.Elems[i].Ptrs[0])
+			o.m.Elems[i].Ptrs[0] = m
+			s.logf("o%d[%d].p0=%s via PointerList", o.id, i, name)
+			return
+		}
+	}
 	w, ok := s.pickStruct()
 	if !ok || len(w.m.Ptrs) == 0 {
 		return
